@@ -772,8 +772,12 @@ func (e *simEnv) checkUnread(res drive.Result, f *refmatch.Flow, tag string) {
 	v := e.spec.V
 	poll := e.spec.EffectivePoll()
 	if v.Serial {
-		// the serial engine reads one matching frame per TTL window and leaves the rest queued; what is still
-		// queued when it stops is not decided by the property (C02 restricts serial histories)
+		// the serial engine reads one matching frame per TTL window and leaves the rest queued; what is still queued when
+		// it stops is mostly not decided by the property (C02 restricts serial histories). Decided: from the send of probe
+		// t the engine polls without a gap until it has read a frame it accepts or t's timeout has passed. So a must-accept
+		// reply for t that reached the handle inside t's own window (more than a poll before its end) while no accepted
+		// frame had been read since t's send found the engine waiting for exactly it - and has been read.
+		e.checkUnreadSerial(res, f, tag)
 		return
 	}
 	n := int(e.spec.MaxTTL) - int(e.spec.MinTTL) + 1
@@ -801,6 +805,60 @@ func (e *simEnv) checkUnread(res drive.Result, f *refmatch.Flow, tag string) {
 			continue // beyond the destination hop
 		}
 		e.c.Violate("C02", "reply-never-read/"+v.Name, fmt.Sprintf("%s: frame #%d (%s, answers probe %d) reached the capture handle %v before the end of the listening window but was never read", tag, d.Frame.ID, d.Frame.Class, o.TTL, end.Sub(d.At)), fmtRun(res))
+		return
+	}
+}
+
+func (e *simEnv) checkUnreadSerial(res drive.Result, f *refmatch.Flow, tag string) {
+	if res.Err != nil || res.Run == nil {
+		return
+	}
+	poll := e.spec.EffectivePoll()
+	sentAt := map[int]*refmatch.Probe{}
+	for _, p := range f.Probes {
+		if _, ok := sentAt[p.TTL]; !ok {
+			sentAt[p.TTL] = p
+		}
+	}
+	e.w.Lock()
+	var unread, read []*simnet.Delivery
+	for _, d := range e.w.Deliveries {
+		if d.Handle != e.handle.Idx || d.Drained || d.Filtered {
+			continue
+		}
+		if d.Read {
+			read = append(read, d)
+		} else {
+			unread = append(unread, d)
+		}
+	}
+	e.w.Unlock()
+	for _, d := range unread {
+		o := refmatch.Ref(f, d.Frame.Bytes, 1<<62)
+		if o.Kind != refmatch.Accept || o.OrLater || len(o.Alt) > 0 {
+			continue
+		}
+		p := sentAt[o.TTL]
+		if p == nil || !d.At.After(p.SentAt) || !d.At.Before(p.SentAt.Add(e.spec.Timeout-poll)) {
+			continue
+		}
+		// was the wait for probe t possibly over when the frame arrived? (any frame the reference does not reject, read
+		// between t's send and the arrival plus one poll, may have ended it)
+		over := false
+		for _, r := range read {
+			if r.ReadAt.Before(p.SentAt) || r.ReadAt.After(d.At.Add(poll)) {
+				continue
+			}
+			if ro := refmatch.Ref(f, r.Frame.Bytes, r.ReadTick); ro.Kind != refmatch.Reject {
+				over = true
+				break
+			}
+		}
+		if over {
+			continue
+		}
+		e.c.Count("serial_unread_checked", 1)
+		e.c.Violate("C02", "reply-never-read/"+e.spec.V.Name, fmt.Sprintf("%s: frame #%d (%s, answers probe %d) reached the capture handle %v after its probe, inside the probe's own window of %v, while the run was waiting for it, and was never read", tag, d.Frame.ID, d.Frame.Class, o.TTL, d.At.Sub(p.SentAt), e.spec.Timeout), fmtRun(res))
 		return
 	}
 }
